@@ -124,6 +124,10 @@ type Instance struct {
 	Qual  string `json:"qual,omitempty"`
 	Order int    `json:"order,omitempty"`
 	Kind  string `json:"kindv,omitempty"`
+	// InitLookups: instance ids this instance looks up by name (App.GetComponentByName) from
+	// inside its Init / AfterPropertiesSet callback - a dependency cycle can be closed during
+	// initialization, not only during population.
+	InitLookups []string `json:"initLookups,omitempty"`
 }
 
 // Proc is a user post-processor instance (one of nine static harness types).
